@@ -33,6 +33,22 @@ Definition name_ok (s : string) : bool :=
   && negb (String.eqb s ".") && negb (String.eqb s "..")
   && negb (existsb (String.eqb s) reserved_names).
 
+(* per zarr format (tied to the real write by the C03 correspondence, input IName): one usable path segment that is not a reserved
+   member name of THAT format; name_ok is the conjunction over both formats *)
+Definition seg_ok (s : string) : bool :=
+  negb (String.eqb s "")
+  && negb (str_has "/"%char s) && negb (str_has "\"%char s)
+  && negb (String.eqb s ".") && negb (String.eqb s "..").
+Definition reserved_v2 : list string := [".zarray"; ".zgroup"; ".zattrs"; ".zmetadata"].
+Definition reserved_v3 : list string := ["zarr.json"].
+Definition name_ok_fmt (v3 : bool) (s : string) : bool :=
+  seg_ok s && negb (existsb (String.eqb s) (if v3 then reserved_v3 else reserved_v2)).
+
+Lemma name_ok_both s : name_ok s = name_ok_fmt false s && name_ok_fmt true s.
+Proof. unfold name_ok, name_ok_fmt, seg_ok, reserved_names, reserved_v2, reserved_v3. cbn [existsb].
+  destruct (String.eqb s ""), (str_has "/"%char s), (str_has "\"%char s), (String.eqb s "."), (String.eqb s ".."),
+    (String.eqb s ".zarray"), (String.eqb s ".zgroup"), (String.eqb s ".zattrs"), (String.eqb s ".zmetadata"), (String.eqb s "zarr.json"); reflexivity. Qed.
+
 Lemma name_ok_nonempty s : name_ok s = true -> s <> "".
 Proof. unfold name_ok. intros H E. subst s. discriminate. Qed.
 
